@@ -8,4 +8,5 @@ def main (args : List String) : IO UInt32 := do
   | ["k2", carrier] => Qs.K2.main carrier; return 0
   | ["k5", carrier] => Qs.K5.main carrier; return 0
   | ["k6", carrier] => Qs.K6.main carrier; return 0
+  | ["k7", carrier] => Qs.K7.main carrier; return 0
   | _ => IO.eprintln "usage: qsdriver <harness> <float|rat>"; return 2
